@@ -108,3 +108,44 @@ SEARCH = {'c31_prepare_request': ['c31_apq']}
 BOUNDED = {'C31': [dict(case='c31_apq', function='ApolloPersistedQueries + LruCacheStorage through Schema::execute (real SHA-256, real parser, real scc::HashCache)',
                         bound='45 request histories (5 fixed + 40 seeded, <= 8 requests each) over 4 documents: register, look up, wrong hash, unknown hash, version != 1; compared with a reference store and an independent SHA-256',
                         why='the kernel abstracts SHA-256, the parser, the storage and the continuation; the bounded run ties them to the real components')]}
+
+
+# ----------------------------------------------------------------------------------------------------------------------
+# LruCacheStorage: get / set are plain lookups / insertions on the underlying bounded cache (await-erased)
+from vx.unit import ClosureMatch  # noqa: E402
+
+STORAGE_SHIMS = r'''
+// scc::HashCache<String, ExecutableDocument>: a bounded map -- a stored entry may be evicted, never altered (assumed contract on a dependency)
+pub struct ExecutableDocument { pub id: u64 }
+impl Clone for ExecutableDocument { fn clone(&self) -> (r: Self) ensures r == *self { ExecutableDocument { id: self.id } } }
+pub struct Entry { pub v: ExecutableDocument }
+impl Entry { pub fn get(&self) -> (r: &ExecutableDocument) ensures *r == self.v { &self.v } }
+#[verifier::external_body]
+pub struct HashCache { _p: u8 }
+impl HashCache {
+    pub uninterp spec fn view(&self) -> Map<Seq<char>, ExecutableDocument>;
+    // interior mutability (sharded locks): the cache after a put is some map in which the new entry is present and every other entry is an old one
+    pub uninterp spec fn after_put(&self, k: Seq<char>, v: ExecutableDocument) -> Map<Seq<char>, ExecutableDocument>;
+    #[verifier::external_body]
+    pub fn get_async(&self, k: &String) -> (r: Option<Entry>) ensures match r { Some(e) => self.view().contains_key(k@) && e.v == self.view()[k@], None => !self.view().contains_key(k@) } { unimplemented!() }
+    #[verifier::external_body]
+    pub fn put_async(&self, k: String, v: ExecutableDocument) -> (r: Result<Option<(String, ExecutableDocument)>, (String, ExecutableDocument)>) { unimplemented!() }
+}
+pub struct LruCacheStorage(pub HashCache);
+'''
+
+
+def storage_unit(kf):
+    u = Unit('c31_lru_storage', ['C31'], 'LruCacheStorage::get returns exactly what the underlying cache holds under the hash (a clone), or nothing')
+    u.kf = kf
+    u.trusted(STORAGE_SHIMS, 'scc::HashCache shim')
+    u.extract_fn(F, ['impl CacheStorage for LruCacheStorage', 'fn get'], wrap_impl='LruCacheStorage',
+                 sig_rewrites=[AwaitErase()], rewrites=[AwaitErase(), ClosureMatch('opt.map')],
+                 ensures=['match r { Some(d) => self.0.view().contains_key(key@) && d == self.0.view()[key@], None => !self.0.view().contains_key(key@) }   // never a document stored under another hash'])
+    u.assume('scc::HashCache modelled as a map whose entries may be evicted but never altered (assumed contract on a dependency); `set` is a bare `put_async` (no contract of its own: the map after a put is the dependency\'s business)')
+    u.search_case('apollo_persisted_queries.rs', 'c31_apq')
+    return u
+
+
+UNITS['c31_lru_storage'] = (['C31'], storage_unit)
+SEARCH['c31_lru_storage'] = ['c31_apq']
